@@ -81,6 +81,7 @@ Inductive risk :=
 | RMake (n : term)                        (* make([]T, n): n < 0 panics *)
 | RAssert (s : string)                    (* type assertion without comma-ok *)
 | RDeref (s : string)                     (* field access through a map lookup result *)
+| RDiv (d : term)                         (* integer division / remainder by d *)
 | RPanic (s : string).                    (* explicit panic(...) *)
 
 Definition ok_oracle (s : string) : string := "ok?" ++ s.
@@ -91,6 +92,7 @@ Definition risk_okb (r : risk) (e : env) : bool :=
   | RSlice x lo hi => (0 <=? teval lo e) && (teval lo e <=? teval hi e) && (teval hi e <=? e x)
   | RMake n => 0 <=? teval n e
   | RAssert s | RDeref s => e (ok_oracle s) =? 1
+  | RDiv d => negb (teval d e =? 0)
   | RPanic _ => false
   end.
 
@@ -101,6 +103,7 @@ Definition risk_text (r : risk) : string :=
   | RMake _ => "makeslice: len out of range"
   | RAssert s => "interface conversion: " ++ s
   | RDeref s => "nil pointer dereference: " ++ s
+  | RDiv _ => "integer divide by zero"
   | RPanic s => s
   end.
 
@@ -108,8 +111,9 @@ Definition risk_text (r : risk) : string :=
 Inductive ev :=
 | ERisk (r : risk)
 | EIf (c : cond) (a b : list ev)
-| ERet (tag : string) (v : term)          (* return; tag = how the last result is built, v = its value
-                                             (error results: 0 = nil, 1 = a non-nil error) *)
+| ERet (tag : string) (vs : list term)    (* return; tag = how the results are built (heads of the result
+                                             expressions), vs = their values: length for a slice, 0 = nil
+                                             and 1 = non-nil for an error, value for an integer / boolean *)
 | ELoopRange (i x : string) (body : list ev)     (* for i := range x / for i, v := range x *)
 | ELoopN (i : string) (lo hi : term) (body : list ev)   (* for i := lo; i < hi; i++ *)
 | ELoopWhile (c : cond) (body : list ev)         (* any other for loop *)
@@ -117,10 +121,10 @@ Inductive ev :=
 | ESetLen (x : string) (t : term)         (* x := make([]T, t) / fixed-size array / integer assignment *)
 | EReslice (x : string) (k : term)        (* x = x[k:] *)
 | EHavoc (x : string) (o : string)        (* any other assignment: x := oracle entry o *)
-| ECall (f : string) (binds : list (string * term)) (rfrom rto : string) (res : string)
+| ECall (f : string) (binds : list (string * term)) (rfrom rto : string) (res : list string)
     (* call of another skeletonised function: parameters bound to terms of the caller;
        names of the callee that start with rfrom (its receiver) are read as rto ++ rest in
-       the caller's environment; res receives the callee's return value ("" = ignored) *)
+       the caller's environment; res receive the callee's return values ("" = ignored) *)
 | EDyn (s : string)                       (* interface method / callback call: no effect here *)
 | EExt (s : string)                       (* call into another package (stdlib, cgo): no effect here *)
 | ENote (s : string)                      (* DKGProcessor callback: observable, no effect here *)
@@ -128,7 +132,7 @@ Inductive ev :=
 
 Inductive outcome :=
 | Cont (e : env)
-| Returned (tag : string) (v : Z)
+| Returned (tag : string) (vs : list Z)
 | Broke
 | Panicked (t : string).
 
@@ -166,10 +170,19 @@ Definition run_list (one : ev -> env -> list outcome) : list ev -> env -> list o
 Definition loop_out (e : env) (os : list outcome) : list outcome :=
   map (fun o => match o with Cont _ | Broke => Cont e | _ => o end) os.
 
-Definition call_out (e : env) (res : string) (os : list outcome) : list outcome :=
+Fixpoint bind_res (e : env) (res : list string) (vs : list Z) : env :=
+  match res with
+  | [] => e
+  | r :: rs =>
+      let v := match vs with v :: _ => v | [] => 0 end in
+      let e' := if String.eqb r "" then e else upd e r v in
+      bind_res e' rs (tl vs)
+  end.
+
+Definition call_out (e : env) (res : list string) (os : list outcome) : list outcome :=
   map (fun o => match o with
-                | Cont _ | Broke => Cont (if String.eqb res "" then e else upd e res 0)
-                | Returned _ v => Cont (if String.eqb res "" then e else upd e res v)
+                | Cont _ | Broke => Cont (bind_res e res [])
+                | Returned _ vs => Cont (bind_res e res vs)
                 | Panicked t => Panicked t
                 end) os.
 
@@ -185,7 +198,7 @@ Section Exec.
         | Some false => run_list (one call) b e
         | None => (run_list (one call) a e ++ run_list (one call) b e)%list
         end
-    | ERet tag v => [Returned tag (teval v e)]
+    | ERet tag vs => [Returned tag (map (fun t => teval t e) vs)]
     | ELoopRange i x body =>
         let iv := e (loop_oracle i) in
         Cont e :: (if (0 <=? iv) && (iv <? e x)
